@@ -12,5 +12,7 @@ RULES = {"C03.a", "C03.b", "C03.c", "C03.d", "C03.e", "C03.f", "C03.g", "C03.h"}
 def check(ctx):
     minimizer_rules.analyze(ctx, RULES)
     # the property is observed on scanners obtained through build(): the cache must hand back the configuration's own compilation
+    from . import adaptors
+    adaptors.analyze(ctx, ("C03.i",))
     from .common import cache_foundation
     cache_foundation(ctx)
